@@ -33,8 +33,8 @@ def _report(run, rejected, res):
 
 def check(run):
     res = dp.decode_pass(run, want={"c01"})
-    samples = dp.first_events(res, "c01.ndjson", n=2, pred=lambda e: e["out"] == "ok")
-    samples += dp.first_events(res, "c01.ndjson", n=1, pred=lambda e: e["out"] == "err" and e["len"] == 14)
+    samples = dp.first_events(res, "c01.ndjson", n=2, pred=lambda e: e.get("e") == "dec" and e["out"] == "ok")
+    samples += dp.first_events(res, "c01.ndjson", n=1, pred=lambda e: e.get("e") == "dec" and e["out"] == "err" and e["len"] == 14)
     rejected, n_events, results = dp.validate_parts(run, res, "trace/Trace_Decode", "c01.ndjson")
     st = res["stats"]
     per_clause = _report(run, rejected, res)
